@@ -177,6 +177,15 @@ def build_universe(seed, tier):
     for d in tw:
         a = Adt(d, [], [])
         st += [a, Seq('vec', Adt(d, [], []))]
+    # round 10: arrays of sums (a tag per item: a foreign tag in an item that is not the last one), and 70 levels of vectors
+    # (a schema deeper than 64 levels)
+    o8 = Sum('opt', [Prim('u8')])
+    st += [Array(o8, 3), Array(Sum('bnd', [Prim('u16')]), 3), Array(Sum('cf', [Prim('u8'), Str()]), 2), Seq('vec', Array(o8, 2)),
+           Adt(byname['KD5'], [Array(Sum('opt', [Str()]), 3)], []), Array(Array(o8, 2), 2)]
+    n70 = Prim('u64')
+    for _ in range(70): n70 = Seq('vec', n70)
+    n70.heavy = True        # (the generic value generator branches at every level: only the explicit value of `big_values`)
+    st += [n70]
     u.slice_elems = list(u.slice_elems) + [Adt(byname['KZU'], [], []), Adt(byname['KZV'], [], []), Adt(byname['KZ10'], [], []), Adt(byname['KZE2'], [], []), Adt(byname['KZ8'], [], [])]
     u.corpus_start = len(u.types)
     u.corpus_rust = [t.rust() for t in c.types] + [t.rust() for t in st]
